@@ -153,6 +153,18 @@ let () =
               "kadrop " ^ String.concat " " (List.map si (ka_dropped s));
               "inhand " ^ String.concat " " (List.map si (ack_in_hand s));
               "ackq " ^ String.concat " " (List.map si s.ackq);
+              (* --- added for C08/C09 (extra sections are ignored by client_common.canon_model) --- *)
+              "out " ^ String.concat " , " (List.map (fun (o : oframe) -> frame_s o.o_frame ^ " " ^
+                                              (match o.o_src with None -> "-" | Some c -> si c)) s.out);
+              "nwire " ^ string_of_int (List.length s.wire);
+              "errs " ^ String.concat " " (List.map (function EWrite -> "write" | ERead -> "read" | EClosedW -> "closedw" | EClosedR -> "closedr") s.errs);
+              "phase " ^ (match s.phase with
+                  | PInit -> "init" | PCheckInitial -> "checkinitial"
+                  | PNegotiating (st, c) -> "negotiating-" ^ (match st with NGsv -> "gsv" | NSpv -> "spv" | NDone -> "done") ^
+                                            (match c with None -> "" | Some _ -> "-waiting")
+                  | PReady -> "ready" | PDraining _ -> "draining" | PReturned _ -> "returned");
+              "flags " ^ b2s s.ready ^ " " ^ b2s s.closed;
+              "closecalls " ^ String.concat " " (List.map b2s s.close_calls);
               "nevents " ^ string_of_int (List.length m.m_events);
               "replay " ^ (if replay_ok sc m = s then "ok" else "MISMATCH");
               "fuel " ^ (if m.m_fuel_out then "OUT" else "ok");
